@@ -47,6 +47,13 @@ Theorem C02_after_append : forall x y p, ssorted x -> (2 <= length x)%nat -> len
 Proof. exact append_keeps_hyps. Qed.
 Print Assumptions C02_after_append.
 
+(** every bundled dataset (GENERATED Gen/Bundled.v) meets the hypotheses of C02_main / C02_rectangle_average *)
+From TW Require Import Gen.Bundled Proofs.DatasetsProofs.
+Theorem C02_bundled : forall f g xs ys, In (f, g, xs, ys) bundled_files ->
+  ssorted xs /\ (2 <= length xs)%nat /\ length xs = length ys.
+Proof. exact bundled_pipeline_hyps. Qed.
+Print Assumptions C02_bundled.
+
 Example C02_example :
   let x := [qz 0; qz 1; qz 3] in let y := [qz 2; qz 5; qz 1] in
   match match_ref (pw_int 2) (grid x 4) (oversample_pc [qz 9; qz 0; qz 4] 4) x y (ByStrategy Closest) Rectangle Rectangle with
